@@ -701,6 +701,10 @@ def with_extra(q):
         q["items"].insert(0, REL(EXTRA, ["i32", "Option<i32>"]))
     return q
 
+def extra_shift(p):
+    """by how much `with_extra` moves the items of `p` (0 when the relation is declared already: the program is itself a mutant)"""
+    return 0 if any(it["t"] == "rel" and it["name"] == EXTRA for it in p["items"]) else 1
+
 def rebinder(form, v, paren=False):
     pv = f"({v})" if paren else v
     seen, hid = [v], []      # since fix f47e99d `pattern_get_vars` descends into Pat::Paren (finding FM1)
@@ -728,12 +732,12 @@ def mut_rebind(p, paren=False):
             for form in BINDERS:
                 new = rebinder(form, v, paren)
                 q = with_extra(copy.deepcopy(p))
-                qpath = ("items", path[1] + 1) + tuple(path[2:])
+                qpath = ("items", path[1] + extra_shift(p)) + tuple(path[2:])
                 get(q, qpath).insert(k, new)
                 if ctx["top"] == "macro":
-                    # hygiene renaming skips the conditions attached to clauses; under the in-process driver (all spans equal) a
-                    # parameter is renamed too, so this form is only observable under real rustc when the macro has private names
-                    faithful = not (form == "clausecond" and not transparent(q, ctx["name"]))
+                    # since fix 3a6dc9a (finding FM11) hygiene renaming also visits the conditions attached to clauses: the `clausecond`
+                    # form behaves like every other binder, in process (all spans equal) as under rustc
+                    faithful = True
                 else: faithful = v in g_in
                 yield mutant(q, "rebind", form + ("-paren" if paren else ""), poskind(ctx), faithful=faithful)
     if paren: return
@@ -773,7 +777,7 @@ def mut_aggbound(p):
             if not gb: continue
             v = gb[0]
             q = with_extra(copy.deepcopy(p))
-            qpath = ("items", path[1] + 1) + tuple(path[2:])
+            qpath = ("items", path[1] + extra_shift(p)) + tuple(path[2:])
             get(q, qpath).insert(k, AGG("zm9", ["zm9"], "min", [v], EXTRA, [V(v), W()]))
             yield mutant(q, "rebind", "agg-bound-arg", poskind(ctx))
             break
@@ -895,18 +899,18 @@ def mut_attrs(p):
 
 
 def mut_known_shapes(p):
-    """further ill-formed shapes found while building the check (each is a recorded finding or a sanity class)"""
-    # struct / impl signatures that do not match
+    """further ill-formed shapes found while building the check (each was a recorded finding — FM4, FM5, FM6, FM7, FM9, all repaired — or is a sanity class)"""
+    # struct / impl signatures that do not match: "the identifiers / the generic parameters of struct and impl must match" (fix dfbe0be)
     q = copy.deepcopy(p); q["sig"] = {"s": "Prg", "i": "Other", "gm": True, "text": "struct Prg; impl Other;"}
     yield mutant(q, "signature-mismatch", "impl-name", "signature")
     q = copy.deepcopy(p); q["sig"] = {"s": "Prg", "i": "Prg", "gm": False, "text": "struct Prg<T>; impl<T> Prg<U>;"}
     yield mutant(q, "signature-mismatch", "impl-generics", "signature")
-    # aggregation whose bound argument is not an argument of the aggregated relation
+    # aggregation whose bound argument is not an argument of the aggregated relation: "aggregated variable `zq9` must be an argument .." (fix 5862f99)
     rels = rels_of(p)
     for path, ctx in containers(p):
         if ctx["top"] == "macro" and ctx["name"] not in invoked_macros(p): continue
         q = with_extra(copy.deepcopy(p))
-        qpath = ("items", path[1] + 1) + tuple(path[2:])
+        qpath = ("items", path[1] + extra_shift(p)) + tuple(path[2:])
         get(q, qpath).append(AGG("zm9", ["zm9"], "min", ["zq9"], EXTRA, [W(), W()]))
         yield mutant(q, "agg-bound-arg-missing", "min(z) in r(_, _)", poskind(ctx))
     # lattice declared with a trailing comma (well-formed!)
@@ -932,7 +936,17 @@ def mut_known_shapes(p):
         q = copy.deepcopy(p); q["items"].append(MAC("zhempty9", [], [], head=True))
         q["items"][i]["heads"].insert(0, M("zhempty9", []))
         yield mutant(q, "wellformed-variant", "empty-head-macro-then-comma", "rule-head", expect="ok")
-    # an empty disjunction erases the rule (and with it every violation inside the rule)
+    # an empty disjunction `()`: a parse error of the rule ("empty disjunction", fix 361e42e); inside a macro definition the body is a token
+    # stream that is only parsed when the macro is invoked: an error of the expansion there, and no error at all when nothing invokes the macro
+    inv = invoked_macros(p)
+    for path, ctx in containers(p):
+        items = get(p, path)
+        for k in sorted({0, len(items)}):
+            q = copy.deepcopy(p); get(q, path).insert(k, OR([]))
+            if ctx["top"] == "macro" and ctx["name"] not in inv:
+                yield mutant(q, "wellformed-variant", "empty-disjunction-in-never-invoked-macro", poskind(ctx), expect="ok")
+            else: yield mutant(q, "empty-disjunction", "()" + ("-first" if k == 0 else "-last"), poskind(ctx))
+    # .. and it is reported although another violation sits in the same rule (formerly the rule and the violation disappeared together)
     for path, ctx in occurrences(p):
         if ctx["top"] != "rule" or ctx["what"] != "head": continue
         q = copy.deepcopy(p)
@@ -988,16 +1002,89 @@ def mut_hygiene(p):
         # the same macro twice in one rule, its private name also used by the rule itself
         q = with_extra(copy.deepcopy(p))
         q["items"].append(MAC("zhy9", [("p0", "ident")], [CL(EXTRA, [V("$p0"), W()]), B("let", "zl9", ["zl9"], "($p0 + 0) + 1"), IF("(zl9 + 0) < 99")]))
-        body = q["items"][i + 1]["body"]
+        body = q["items"][i + extra_shift(p)]["body"]
         body.insert(0, B("let", "zl9", ["zl9"], "1"))
         body += [M("zhy9", [V("za9")]), M("zhy9", [V("zb9")])]
         yield mutant(q, "wellformed-variant", "private-macro-names", "rule-body", expect="ok")
         # a private name used in a condition attached to a clause of the macro body
         q = with_extra(copy.deepcopy(p))
         q["items"].append(MAC("zhy8", [("p0", "ident")], [CL(EXTRA, [V("$p0"), W()]), CL(EXTRA, [V("zl8"), W()], [IF("(zl8 + 0) < 99")])]))
-        q["items"][i + 1]["body"].append(M("zhy8", [V("za9")]))
-        yield mutant(q, "wellformed-variant", "private-name-in-clause-condition", "macro-body", expect="ok", rustc_only="FM11")
+        q["items"][i + extra_shift(p)]["body"].append(M("zhy8", [V("za9")]))
+        yield mutant(q, "wellformed-variant", "private-name-in-clause-condition", "macro-body", expect="ok")     # compiles since fix 3a6dc9a (was FM11)
         break
+
+
+def mut_order(p, rng):
+    """two (or three) violations in one program whose answer is decided by the ORDER of the pipeline: planted deterministically around the checks
+    that the repairs 5862f99 / dfbe0be / 361e42e added (the random two-violation programs of c15.build_streams hit these pairs only by chance).
+    The property asks for a rejection, the tie for the SAME error kind as the model."""
+    def first(gen):
+        for m in gen:
+            if m["faithful"] and not m["hazard"] and m["expect"] == "err" and syntax_ok(m["prog"]): return m
+        return None
+    # the signatures are compared after the rules, the program attributes and the declarations, BEFORE the stratification test
+    sigs = [("name", {"s": "Prg", "i": "Other", "gm": True, "text": "struct Prg; impl Other;"}),
+            ("generics", {"s": "Prg", "i": "Prg", "gm": False, "text": "struct Prg<T>; impl<T> Prg<U>;"})]
+    for gen in (mut_strat(p, rng), mut_undeclared(p), mut_arity(p), mut_ds(p), mut_attrs(p), (m for m in mut_known_shapes(p) if m["class"] == "agg-bound-arg-missing")):
+        m = first(gen)
+        if m is None: continue
+        for nm, sg in sigs:
+            q = copy.deepcopy(m["prog"]); q["sig"] = dict(sg)
+            yield mutant(q, "two-violations", f"signature-mismatch({nm})+{m['class']}", "signature")
+    # inside one aggregation: the test of the aggregated variable comes before the shadowing test of the pattern and before prog_get_relation
+    for path, ctx in containers(p):
+        if ctx["top"] == "macro": continue
+        items = get(p, path)
+        done = False
+        for k in range(1, len(items) + 1):
+            gb = [v for v in grounded_before(p, path, k, inproc=True) if not v.startswith("w")]
+            if not gb: continue
+            v = gb[0]
+            qpath = ("items", path[1] + extra_shift(p)) + tuple(path[2:])
+            for variant, agg in (("rebind+undeclared", AGG(v, [v], "min", ["zq9"], "undeclared9", [W(), W()])),
+                                 ("rebind", AGG(v, [v], "min", ["zq9"], EXTRA, [W(), W()])),
+                                 ("arity", AGG("zm9", ["zm9"], "min", ["zq9"], EXTRA, [W(), W(), W()])),
+                                 ("undeclared", AGG("zm9", ["zm9"], "min", ["zq9"], "undeclared9", [W()]))):
+                q = with_extra(copy.deepcopy(p))
+                get(q, qpath).insert(k, agg)
+                yield mutant(q, "two-violations", f"agg-bound-arg-missing+{variant} (one aggregation)", poskind(ctx))
+            # .. but an earlier item of the same body is answered first
+            q = with_extra(copy.deepcopy(p))
+            get(q, qpath).insert(k, AGG("zm9", ["zm9"], "min", ["zq9"], EXTRA, [W(), W()]))
+            get(q, qpath).insert(k, B("let", v, [v], "7"))
+            yield mutant(q, "two-violations", "rebind, then agg-bound-arg-missing", poskind(ctx))
+            done = True
+            break
+        if done and ctx["disj"] == 0 and ctx["idx"] % 2: break
+    # an invocation: `macros.get`, the arguments, THEN the body is parsed (empty disjunction), then its items are expanded
+    macs = macs_of(p)
+    seen = set()
+    for path, ctx in containers(p):
+        if ctx["top"] != "rule": continue
+        for k, x in enumerate(get(p, path)):
+            if x["t"] != "m" or x["name"] not in macs or macs[x["name"]]["head"] or x["name"] in seen: continue
+            seen.add(x["name"])
+            mi = next(t for t, it in enumerate(p["items"]) if it["t"] == "mac" and it["name"] == x["name"])
+            for how in ("too-few-arguments", "too-many-arguments"):
+                if how == "too-few-arguments" and not x["args"]: continue
+                q = copy.deepcopy(p); q["items"][mi]["body"].append(OR([]))
+                if how == "too-few-arguments": get(q, path)[k]["args"].pop()
+                else: get(q, path)[k]["args"].append(E("1"))
+                yield mutant(q, "two-violations", f"macro-use({how})+empty-disjunction in that macro", poskind(ctx))
+            q = copy.deepcopy(p)
+            q["items"][mi]["body"].insert(0, M("zundef9", [E("1")]))
+            q["items"][mi]["body"].append(OR([[CL(sorted(rels_of(p))[0], [W()] * len(rels_of(p)[sorted(rels_of(p))[0]]["cols"]))], [OR([])]]))
+            yield mutant(q, "two-violations", "undefined-macro first in a macro body+nested empty-disjunction last in it", "macro-body")
+    # parse errors come in textual order, and before everything else
+    rl = [i for i, _ in rules_of(p)]
+    if len(rl) >= 2:
+        for a, b in ((rl[0], rl[-1]), (rl[-1], rl[0])):
+            q = copy.deepcopy(p); q["items"][a]["body"].append(OR([])); q["items"][b]["nattrs"] = 1
+            yield mutant(q, "two-violations", "empty-disjunction+attribute-on-rule (textual order)", "top-level")
+        q = copy.deepcopy(p); q["items"][rl[-1]]["body"].append(OR([]))
+        for h in q["items"][rl[0]]["heads"]:
+            if h["t"] == "h": h["rel"] = "undeclared9"; break
+        yield mutant(q, "two-violations", "undeclared in the first rule+empty-disjunction in the last", "rule-body")
 
 
 def all_mutants(p, rng):
@@ -1017,6 +1104,7 @@ def _all_mutants(p, rng):
     yield from mut_ds(p)
     yield from mut_attrs(p)
     yield from mut_known_shapes(p)
+    yield from mut_order(p, rng)
     yield from mut_badcond(p)
     yield from mut_depth(p)
     yield from mut_hygiene(p)
